@@ -15,6 +15,10 @@ info = tr.regenerate("/repo", "lean/CnvVerif/Generated")
 if info.get("changed"):
     print("generated files differ from the committed lock:", info.get("changed")); sys.exit(1)
 PY
+# ... and what is being committed must be those files (the index can lag behind the working tree)
+if ! git diff --quiet -- lean/CnvVerif/Generated lean/generated.lock.json lean/generated.baseline; then
+  echo "generated files in the working tree differ from the staged ones: git add lean/CnvVerif/Generated lean/generated.lock.json lean/generated.baseline"; exit 1
+fi
 ( cd lean && flock .lake/verif.lock lake build CnvVerif Main CnvVerif.Props.All 2>&1 | grep -E "^error|✖|build failed" && exit 1 || true )
 python3-vt - <<'PY'
 import json, jsonschema
